@@ -178,49 +178,76 @@ def element_table(ctx):
     folds = [n for n in T.nodes(b["tree"], "mcall") if n["name"] == "fold"]
     info = {"body": b, "cannot": None, "outs": [], "skip_fn": None}
     ctx._element_table = info
-    if len(folds) != 1:
-        info["cannot"] = "expected one fold over the content parts, found %d" % len(folds)
-        return info
-    fold = folds[0]
-    it = T.render(fold["recv"])
-    if it != "contents.iter()":
-        info["cannot"] = "the traversal is over `%s`, not over all content parts (contents.iter())" % it
-        return info
-    clo = T.peel(fold["args"][1])
-    if clo["k"] != "closure" or len(clo["params"]) != 2:
-        info["cannot"] = "fold closure shape"
-        return info
-    info["closure"] = clo
     skip_fns = [x for x in P.user_bodies() if fshort(x).endswith("remover::is_skip")]
     inline = [x["def_path"] for x in skip_fns]
     info["skip_fn"] = skip_fns[0] if skip_fns else None
-    I = A.Interp(P, inline=inline)
 
-    def run(J):
-        env = {}
-        # function parameters captured by the closure
-        names = []
+    def bind_fn_params(env):
         for p in b["params"]:
             pat = p["pat"]
             if pat["p"] == "bind":
                 env[pat["id"]] = A.Sym({"collect_pending_removals": "collect_pending"}.get(pat["name"], pat["name"]), p["ty"])
-                names.append(pat["name"])
-        ready = A.VecV([], base=A.Sym("READY_ACC"))
-        pend = A.VecV([], base=A.Sym("PENDING_ACC"))
-        acc = A.Tuple([ready, pend])
-        if not J.match_pat(clo["params"][0]["pat"], acc, env) or not J.match_pat(clo["params"][1]["pat"], A.Sym("c"), env):
-            raise A.Cannot("closure parameters")
-        v = J.ev(clo["body"], env)
-        return v
 
+    if len(folds) == 1:
+        fold = folds[0]
+        it = T.render(fold["recv"])
+        if it != "contents.iter()":
+            info["cannot"] = "the traversal is over `%s`, not over all content parts (contents.iter())" % it
+            return info
+        clo = T.peel(fold["args"][1])
+        if clo["k"] != "closure" or len(clo["params"]) != 2:
+            info["cannot"] = "fold closure shape"
+            return info
+        info["closure"] = clo
+        seed = T.render(fold["args"][0])
+        if seed != "(std::vec::Vec::new(), std::vec::Vec::new())":
+            info["cannot"] = "fold seed is `%s`, expected two empty lists" % seed
+            return info
+
+        def run(J):
+            env = {}
+            bind_fn_params(env)
+            acc = A.Tuple([A.VecV([], base=A.Sym("READY_ACC")), A.VecV([], base=A.Sym("PENDING_ACC"))])
+            if not J.match_pat(clo["params"][0]["pat"], acc, env) or not J.match_pat(clo["params"][1]["pat"], A.Sym("c"), env):
+                raise A.Cannot("closure parameters")
+            return J.ev(clo["body"], env)
+    else:
+        # the same traversal written as a loop: `for c in contents { .. }` filling two lists that are returned as a pair
+        fors = [n for n in T.nodes(b["tree"], "for") if T.render(n["iter"]) in ("contents", "contents.iter()")]
+        blk = T.peel(b["tree"])
+        while blk.get("k") == "blockexpr":
+            blk = blk["block"]
+        tail = T.peel(blk["tail"]) if blk.get("tail") is not None else {}
+        accs = [T.local_of(e) for e in tail.get("es", [])] if tail.get("k") == "tuple" else []
+        lets = {s_["pat"]["id"]: s_ for s_ in T.nodes(b["tree"], "let") if s_["pat"]["p"] == "bind"}
+        if len(fors) != 1 or len(accs) != 2 or any(a is None or a not in lets or T.render(lets[a]["init"]) != "std::vec::Vec::new()" for a in accs):
+            info["cannot"] = "expected one fold (or one `for` filling two empty lists that are returned) over the content parts; found %d fold(s), %d loop(s)" % (len(folds), len(fors))
+            return info
+        loop = fors[0]
+        # nothing but the loop may touch the two lists
+        for n in T.nodes(b["tree"], "mcall"):
+            if T.local_of(T.peel_ref(n["recv"])) in accs and not any(x is n for x in T.nodes(loop["body"])):
+                info["cannot"] = "the result lists are modified outside the traversal loop (`%s`)" % T.render(n)[:60]
+                return info
+
+        def run(J):
+            env = {}
+            bind_fn_params(env)
+            ready = A.VecV([], base=A.Sym("READY_ACC"))
+            pend = A.VecV([], base=A.Sym("PENDING_ACC"))
+            env[accs[0]], env[accs[1]] = ready, pend
+            if not J.match_pat(loop["pat"], A.Sym("c"), env):
+                raise A.Cannot("loop pattern")
+            try:
+                J.ev(loop["body"], env)
+            except A._Continue:
+                pass
+            return A.Tuple([ready, pend])
+    I = A.Interp(P, inline=inline)
     try:
         info["outs"] = I.explore(run)
     except A.Cannot as e:
         info["cannot"] = str(e)
-    # seed of the fold must be two empty lists
-    seed = T.render(fold["args"][0])
-    if seed != "(std::vec::Vec::new(), std::vec::Vec::new())":
-        info["cannot"] = "fold seed is `%s`, expected two empty lists" % seed
     return info
 
 
